@@ -77,6 +77,13 @@ def main(argv=None):
 
 def do_replay(prop, pid, path):
     case = json.load(open(path))
+    if isinstance(case.get("case"), dict) and "args" in case["case"] and "function" in case["case"]:
+        g = generic_function_replay(case["case"]["function"], case["case"]["args"])
+        print(g[1] if g else "cannot rebuild the arguments")
+        if g and g[0]:
+            print(f"VIOLATION property={pid} replay={path}")
+            return 1
+        return 0
     fn = getattr(prop, "replay", None)
     if fn is None or "case" not in case:
         print(json.dumps(case, indent=1))
@@ -169,9 +176,10 @@ def run_property(prop, pid, tier, seed, args, t0):
     used_failures = set()
 
     def related_failure(o):
+        short = o.func.split(".")[-1]
         for idx, f in enumerate(failures):
             fn_ = f.get("function") or ""
-            if fn_ and (o.func == fn_ or o.func.endswith(fn_) or fn_.endswith(o.func)):
+            if (fn_ and (o.func == fn_ or o.func.endswith(fn_) or fn_.endswith(o.func))) or short in f.get("where", ()) or f"({short})" in str(f.get("observed", "")):
                 if match_known(f.get("id", "") + " " + fn_ + " " + str(f.get("observed", ""))) is None:
                     return idx, f
         return None, None
@@ -183,7 +191,13 @@ def run_property(prop, pid, tier, seed, args, t0):
             continue
         case, observed = None, None
         if v == "refuted":
-            rp = getattr(prop, "model_to_case", None)
+            try:
+                g = generic_function_replay(o.func, r.get("model", {}))
+            except Exception:  # noqa: BLE001
+                g = None
+            if g is not None and g[0]:
+                case, observed = {"function": o.func, "args": r.get("model", {})}, g[1]
+            rp = getattr(prop, "model_to_case", None) if case is None else None
             if rp is not None and getattr(prop, "replay", None):
                 try:
                     c0 = rp(o, r.get("model", {}))
@@ -317,6 +331,57 @@ def run_property(prop, pid, tier, seed, args, t0):
             print(f"UNDECIDED obligation={o.name} ({r['verdict']}: {r.get('reason', '')})")
         return 2
     return 0
+
+
+def generic_function_replay(qualname, model):
+    """Run the REAL function on the arguments of a counter-model and evaluate its contract at run time.
+    -> (failed: bool, message) or None when the model is not a complete set of arguments."""
+    import importlib
+    import inspect
+
+    from pyvc import rt
+    from pyvc.exec import split_qualname
+
+    c = CONTRACTS.get(qualname)
+    try:
+        modname, fname = split_qualname(qualname)
+        obj = importlib.import_module(modname)
+        for part in fname.split("."):
+            obj = getattr(obj, part)
+        sig = inspect.signature(obj)
+    except Exception:  # noqa: BLE001
+        return None
+    args = {}
+    for pname, prm in sig.parameters.items():
+        if pname in model:
+            v = model[pname]
+            if isinstance(v, dict) and "bytes" in v:
+                v = bytes.fromhex(v["bytes"])
+            elif isinstance(v, dict) and "str" in v:
+                v = v["str"]
+            elif isinstance(v, dict) and "list" in v:
+                v = [bytes.fromhex(x["bytes"]) if isinstance(x, dict) else x for x in v["list"]]
+            elif isinstance(v, str):
+                return None
+            args[pname] = v
+        elif prm.default is inspect.Parameter.empty:
+            return None
+    try:
+        res = obj(**args)
+    except Exception as e:  # noqa: BLE001
+        allowed = set(c.raises) | set(c.raises_iff) if c else set()
+        if type(e).__name__ in allowed or any(type(e).__name__ == a.split(".")[-1] for a in allowed):
+            return (False, f"raised {type(e).__name__} (allowed by the contract)")
+        return (True, f"{qualname}({', '.join(f'{k}={v!r}' for k, v in args.items())}) raised {type(e).__name__}: {e}")
+    if c is not None:
+        for nm, clause in c.ensures.items():
+            try:
+                ok = rt.eval_clause(clause, dict(args, result=res))
+            except Exception:  # noqa: BLE001
+                continue  # clause uses ghost state / heap vocabulary that has no run-time meaning
+            if not ok:
+                return (True, f"{qualname}({', '.join(f'{k}={v!r}' for k, v in args.items())}) = {res!r} violates post/{nm}")
+    return (False, "the real function meets its contract on this input")
 
 
 def safe(s: str) -> str:
